@@ -16,12 +16,12 @@ import (
 // stake-relevant event of the next block must carry exactly that power and those per-backer terms.
 type OracleC10 struct {
 	counters
-	prev      map[string]*stakeSnap // reporter -> expected stake terms at the end of the previous block
-	prevSel   map[string]string     // selector -> reporter
-	prevJail  map[string]time.Time
-	contrib   map[string][]contribRec // delegator -> contributions
-	unbonding time.Duration
-	prevStake map[string]*big.Int // every actor's bonded stake at the end of the previous block
+	prev          map[string]*stakeSnap // reporter -> expected stake terms at the end of the previous block
+	prevSel       map[string]string     // selector -> reporter
+	prevJail      map[string]time.Time
+	contrib       map[string][]contribRec // delegator -> contributions
+	unbonding     time.Duration
+	prevStake     map[string]*big.Int // every actor's bonded stake at the end of the previous block
 	prevValJailed map[string]bool
 }
 
